@@ -132,6 +132,12 @@ def room_cases() -> List[Tuple[int, int, List[List[Tuple[int, int]]]]]:
         for rooms in parts[:: max(1, len(parts) // 25)]:
             out.append((h, wd, rooms))
             out.append((h, wd, [list(reversed(r)) for r in reversed(rooms)]))
+    # non-convex rooms: a U whose arms both reach the top row, a C, a ring around a single cell, an S
+    out += [(2, 3, [[(0, 0), (1, 0), (1, 1), (1, 2), (0, 2)], [(0, 1)]]),
+            (3, 2, [[(0, 0), (0, 1), (1, 0), (2, 0), (2, 1)], [(1, 1)]]),
+            (3, 3, [[(0, 0), (0, 1), (0, 2), (1, 0), (1, 2), (2, 0), (2, 1), (2, 2)], [(1, 1)]]),
+            (3, 3, [[(0, 0), (1, 0), (2, 0), (2, 1), (2, 2), (1, 2), (0, 2)], [(0, 1), (1, 1)]]),
+            (2, 4, [[(0, 0), (0, 1), (1, 1), (1, 2)], [(1, 0)], [(0, 2), (0, 3), (1, 3)]])]
     return out
 
 
